@@ -433,7 +433,8 @@ fn gen_msg(s: &mut Src<'_>, op: u16, net: &Net, sp: &Spend, labels: &mut Vec<Str
             let n = s.below(41);
             let mut m = s.bytes(n);
             let doms = net.all_domains();
-            m.extend_from_slice(s.pick(&doms));
+            let d: [u8; 32] = doms[s.below(doms.len())];
+            m.extend_from_slice(&d);
             m
         }
         _ => {
@@ -1364,7 +1365,7 @@ pub fn case_unsafe_and_keys(bytes: &[u8], ctx: &mut Ctx) -> CaseResult {
     };
     let prefix = gen_bytes(&mut s, prefix_len);
     let mut signer = Signer::default();
-    let mut insert = |bundle: &mut Bundle, c: Cond| bundle[si].conds.insert(pos, c);
+    let insert = |bundle: &mut Bundle, c: Cond| bundle[si].conds.insert(pos, c);
     ctx.label(format!("net:{}", net.name));
     match scenario {
         0 => {
@@ -1597,7 +1598,9 @@ fn required_unsafe_labels() -> &'static [&'static str] {
             }
             v.push(format!("unsafe-banned:rejected:{}:cache-{st}", e.name()));
             v.push(format!("bad-key:rejected:{}:cache-{st}", e.name()));
-            v.push(format!("unsafe-near-miss:accepted:{}:cache-{st}", e.name()));
+            if st == "none" || COLD_ROTATION.contains(&e) {
+                v.push(format!("unsafe-near-miss:accepted:{}:cache-{st}", e.name()));
+            }
         }
     }
     v.push("unsafe-constant-not-last:accepted:run_block_generator2:cache-cold".into());
@@ -1621,19 +1624,19 @@ pub fn property() -> Property {
             SubCheck {
                 name: "bundle",
                 about: "correctly signed bundles accepted at every entry point x cache state; 19 single-point tamperings rejected",
-                source: Source::Random { len: 768, quick: 2_600, thorough: 45_000 },
+                source: Source::Random { len: 768, quick: 3_600, thorough: 60_000 },
                 run: case_bundle,
                 inflight: false,
-                min_nontrivial: 1_500,
+                min_nontrivial: 2_000,
                 required_labels: required_bundle_labels(),
             },
             SubCheck {
                 name: "final-message",
                 about: "rules' messages == run_spendbundle's pkm_pairs == make_aggsig_final_message, no pairing involved",
-                source: Source::Random { len: 768, quick: 200_000, thorough: 4_000_000 },
+                source: Source::Random { len: 768, quick: 80_000, thorough: 2_000_000 },
                 run: case_final_message,
                 inflight: false,
-                min_nontrivial: 100_000,
+                min_nontrivial: 50_000,
                 required_labels: required_final_labels(),
             },
             SubCheck {
